@@ -18,8 +18,8 @@ import Rl4co.Env.Mtvrp
 namespace Rl4co.Spec.Mtvrp
 open Rl4co.Mtvrp (Inst cmpInf)
 
-/-- `x ≤ bound` (`c = .le`, the problem statement) or `x < bound` (`c = .lt`, strict variant used to
-state the partial completeness theorem), the bound possibly infinite -/
+/-- `x ≤ bound` (`c = .le`, the problem statement) or `x < bound` (`c = .lt`, "with slack": only reported by
+the driver so that the harness can tell boundary solutions apart), the bound possibly infinite -/
 abbrev within (c : Cmp) (x : Int) (b : Option Int) : Bool := cmpInf c x b
 
 /-- clock simulation along the rest `r` of a route, standing at `cur` with service finished at `t` -/
